@@ -11,8 +11,11 @@ pub const PRE: &str = "struct S { a: u8, b: bool }\nstruct Z {}\nenum E { A, B(u
 /// Types (the last few are not well-formed).
 pub const TYPES: &[&str] = &[
     "bool", "u8", "u16", "u32", "u64", "usize", "i8", "i16", "i32", "i64", "S", "Z", "E", "[u8; 2]", "[u8; N]", "[bool; 0]", "(u8, bool)", "[(u8, bool); 2]", "([u8; 2], S)", "[[u8; N]; 2]", "[Z; 3]",
+    "[u8; const { N + 1usize }]", "[[bool; const { N - 1usize }]; N]",
     "W", "[u8; K]", "[u8; Q]", "[u8; W]", "[u8; f]", "()",
 ];
+/// Number of well-formed types at the front of `TYPES`.
+const N_GOOD_TYPES: usize = 23;
 
 /// Values (expressions that need no variable in scope besides the declarations of PRE).
 pub const VALUES: &[&str] = &[
@@ -32,6 +35,7 @@ const CONST_ATOMS: &[&str] = &["true", "false", "0", "1", "300", "1u8", "-1", "-
 
 pub fn programs() -> Vec<(&'static str, String)> {
     let mut out: Vec<(&'static str, String)> = vec![];
+    let mut extra: Vec<(&'static str, String)> = vec![];
     let mut p = |class: &'static str, body: String| out.push((class, format!("{PRE}{body}")));
 
     // ---- const definitions: every type x every const expression form over every atom
@@ -63,6 +67,41 @@ pub fn programs() -> Vec<(&'static str, String)> {
         p("slot grid: const expression as array size", format!("pub fn main(x: u8) -> u8 {{ let a: [u8; {ce}] = [x; {ce}]; x }}\n"));
     }
 
+    // ---- names declared twice (and names of different kinds that collide)
+    for prog in [
+        "enum T { A, A }\npub fn main(x: u8) -> u8 { match T::A { T::A => x } }\n",
+        "enum T { A, A(u8) }\npub fn main(x: u8) -> u8 { match T::A(x) { T::A(y) => y } }\n",
+        "enum T { A(u8), A }\npub fn main(x: u8) -> u8 { match T::A { T::A => x } }\n",
+        "enum T { A(u8), B, A(u16) }\npub fn main(x: u8) -> u8 { match T::B { T::A(y) => x, T::B => x } }\n",
+        "enum T { A(u8), A(u8) }\npub fn main(x: u8) -> u8 { match T::A(x) { T::A(y) => y } }\n",
+        "struct T { a: u8, a: u8 }\npub fn main(x: u8) -> u8 { let t = T { a: x }; t.a }\n",
+        "struct T { a: u8, a: u16 }\npub fn main(x: u8) -> u8 { let t = T { a: x, a: 1u16 }; t.a }\n",
+        "struct T { a: u8 }\nstruct T { b: u16 }\npub fn main(x: u8) -> u8 { let t = T { a: x }; t.a }\n",
+        "struct T { a: u8 }\nenum T { A }\npub fn main(x: u8) -> u8 { let t = T { a: x }; t.a }\n",
+        "enum T { A }\nenum T { A, B }\npub fn main(x: u8) -> u8 { match T::A { T::A => x } }\n",
+        "const C: u8 = 1u8;\nconst C: u8 = 2u8;\npub fn main(x: u8) -> u8 { x + C }\n",
+        "const C: u8 = 1u8;\nconst C: u16 = 2u16;\npub fn main(x: u8) -> u8 { x + C }\n",
+        "pub fn h(a: u8) -> u8 { a }\npub fn h(a: u8) -> u8 { a + 1u8 }\npub fn main(x: u8) -> u8 { h(x) }\n",
+        "pub fn h(a: u8) -> u8 { a }\npub fn h(a: u16) -> u16 { a }\npub fn main(x: u8) -> u8 { h(x) }\n",
+        "pub fn main(x: u8, x: u8) -> u8 { x }\n",
+        "pub fn main(x: u8, x: u16) -> u8 { x }\n",
+        "pub fn main(x: u8) -> u8 { x }\npub fn main(x: u8) -> u8 { x + 1u8 }\n",
+        "pub fn h(a: u8, a: bool) -> u8 { a }\npub fn main(x: u8) -> u8 { h(x, true) }\n",
+        "const h: u8 = 1u8;\npub fn h(a: u8) -> u8 { a }\npub fn main(x: u8) -> u8 { h(x) + h }\n",
+        "const main: u8 = 1u8;\npub fn main(x: u8) -> u8 { x + main }\n",
+        "struct main { a: u8 }\npub fn main(x: u8) -> u8 { let m = main { a: x }; m.a }\n",
+        "const N: usize = 1usize;\npub fn main(N: u8) -> u8 { N }\n",
+        "pub fn main(x: u8) -> u8 { let (a, a) = (x, 1u8); a }\n",
+        "pub fn main(x: u8) -> u8 { match (x, 1u8) { (a, a) => a } }\n",
+        "struct T { a: u8, b: u8 }\npub fn main(x: u8) -> u8 { let T { a: y, b: y } = T { a: x, b: 2u8 }; y }\n",
+        "pub fn main(x: u8) -> u8 { let mut n = 0u8; for (a, a) in [(x, 1u8)] { n = a; } n }\n",
+        "const C: u8 = PARTY::X;\nconst D: u16 = PARTY::X;\npub fn main(x: u8) -> u16 { (C as u16) + D + (x as u16) }\n",
+        "const C: u8 = PARTY::X;\nconst D: u8 = PARTY::X;\npub fn main(x: u8) -> u8 { C + D + x }\n",
+        "const C: bool = PARTY::X;\nconst D: u8 = max(PARTY::X, 1u8);\npub fn main(x: u8) -> u8 { if C { D } else { x } }\n",
+    ] {
+        extra.push(("slot grid: names declared twice", prog.to_string()));
+    }
+
     // ---- every type in every type position
     for t in TYPES {
         p("slot grid: type positions", format!("pub fn main(a: {t}) -> {t} {{ a }}\n"));
@@ -89,13 +128,13 @@ pub fn programs() -> Vec<(&'static str, String)> {
             for w in VALUES {
                 p("slot grid: binary operator", format!("pub fn main(x: u8) -> u8 {{ let r = {v} {op} {w}; x }}\n"));
             }
-            for t in &TYPES[..21] {
+            for t in &TYPES[..N_GOOD_TYPES] {
                 p("slot grid: binary operator", format!("pub fn main(a: {t}) -> u8 {{ let r = a {op} {v}; 0u8 }}\n"));
                 p("slot grid: binary operator", format!("pub fn main(a: {t}) -> u8 {{ let r = {v} {op} a; 0u8 }}\n"));
             }
         }
-        for t in &TYPES[..21] {
-            for t2 in &TYPES[..21] {
+        for t in &TYPES[..N_GOOD_TYPES] {
+            for t2 in &TYPES[..N_GOOD_TYPES] {
                 p("slot grid: binary operator", format!("pub fn main(a: {t}, b: {t2}) -> u8 {{ let r = a {op} b; 0u8 }}\n"));
             }
         }
@@ -120,7 +159,7 @@ pub fn programs() -> Vec<(&'static str, String)> {
 
     // ---- patterns against every kind of scrutinee
     let mut scrutinees: Vec<(String, String)> = VALUES.iter().map(|v| ("x: u8".to_string(), v.to_string())).collect();
-    for t in &TYPES[..21] {
+    for t in &TYPES[..N_GOOD_TYPES] {
         scrutinees.push((format!("a: {t}"), "a".to_string()));
     }
     for (param, s) in &scrutinees {
@@ -137,5 +176,6 @@ pub fn programs() -> Vec<(&'static str, String)> {
             }
         }
     }
+    out.extend(extra);
     out
 }
